@@ -797,8 +797,73 @@ def run_d_one(chk, sseed, cls):
 # ---------------------------------------------------------------------------
 
 
+def run_e_one(chk, sseed):
+    """several repositories of one run on the same scheme, host and port, each with credentials of its own (in the URL, from
+    a path-specific auth.conf entry, or none): every request must carry the credentials of the repository it belongs to -
+    and the configured User-Agent - whatever the other repositories of the run use"""
+    from e2e import runner, upstream
+    rng = random.Random(sseed)
+    store_holder = {}
+    names = ["r1", "r2", "r3"][:rng.randint(2, 3)]
+
+    def behaviour(path, k, entry):
+        for nme in names:
+            if path.startswith(f"/{nme}/"):
+                obj = store_holder["store"].get(path[len(nme) + 2:])
+                if obj is not None:
+                    return dict(status=200, headers=[("Last-Modified", httpd.http_date(obj[1]))], body=obj[0])
+        return dict(status=404, body=b"not here")
+
+    origin = httpd.Server(behaviour)
+    sb = runner.Sandbox("c18e")
+    try:
+        repo = tiny_repo(f"http://localhost:{origin.port}/r1")
+        store_holder["store"] = upstream.build_store(repo)[0]
+        comp = next(iter(repo["codenames"]["stable"]["components"]))
+        ua = "verif-E/" + str(rng.randint(0, 99))
+        lines, want, auth_lines = [], {}, []
+        for i, nme in enumerate(names):
+            how = rng.choice(["url", "netrc", "none"]) if i else rng.choice(["url", "netrc"])
+            user, pw = f"user{i}", f"pw-{i}-{rng.randint(0, 999)}"
+            cred = f"{user}:{pw}@" if how == "url" else ""
+            if how == "netrc":
+                auth_lines.append(f"machine http://localhost:{origin.port}/{nme} login {user} password {pw}")
+            lines += [f"deb [arch=amd64] http://{cred}localhost:{origin.port}/{nme} stable {comp}"]
+            want[nme] = None if how == "none" else "Basic " + base64.b64encode(f"{user}:{pw}".encode()).decode()
+        rng.shuffle(lines)
+        sb.write_config(lines, {"http_user_agent": ua, "nthreads": str(rng.choice([1, 2, 4]))})
+        with open(os.path.join(sb.etc, "auth.conf"), "w") as fp:
+            fp.write("\n".join(auth_lines) + "\n")
+        rc = run_tool(sb)
+        replay = {"part": "E", "scenario_seed": sseed, "lines": lines, "auth_conf": auth_lines}
+        reqs = [e for e in origin.log if e.get("event") == "request"]
+        if rc != 0:
+            chk.violation("run-over-http-fails:several-repositories", replay, f"exit {rc} with {len(reqs)} requests")
+        for e in reqs:
+            hd = {k.lower(): v for k, v in e["headers"]}
+            nme = e["target"].split("/")[1] if e["target"].startswith("/") else None
+            if nme not in want:
+                continue
+            if hd.get("authorization") != want[nme]:
+                chk.violation("credentials-of-another-repository", replay, f"request {e['target']} carries Authorization {hd.get('authorization')!r}, "
+                              f"repository /{nme} has {want[nme]!r}")
+                break
+            if hd.get("user-agent") != ua:
+                chk.violation("user-agent-not-sent", replay, f"request {e['target']} carries User-Agent {hd.get('user-agent')!r}, configured {ua!r}")
+                break
+        chk.evaluated(("E", len(names), tuple(sorted(v is None for v in want.values()))), sample={"part": "E", "repositories": len(names), "requests": len(reqs), "exit": rc})
+        chk.count("E_runs")
+        chk.count("E_requests_checked", len(reqs))
+        chk.traces += 1
+    finally:
+        origin.stop()
+        sb.destroy()
+
+
 def run(chk, tier, rng):
     quick = tier == "quick"
+    for i in range(6 if quick else 100):
+        run_e_one(chk, f"C18E-{chk.seed}-{i}")
     part_a(chk, rng, 60 if quick else 1500)
     part_a_protocol(chk)
     part_b(chk, rng, 25 if quick else 600)
